@@ -13,6 +13,15 @@
 //!     every leaf kind at every position of every bracketed construct, real
 //!     parse tree vs printed tree vs the Lean look-ahead model, values on the
 //!     JIT; literal spellings in `return` / block / parenthesis positions.
+//!  H. literal spellings whose first character selects the lexer path
+//!     (`src/c09/firstchar.rs`): IPv6 addresses / prefixes beginning with every
+//!     hex digit in both cases, AS numbers, identifiers beginning with `AS` / hex
+//!     letters / `f`, numbers beginning with `0x` / `0` / every digit.
+//!  G. prefix operators × operand kinds × postfix forms (`src/c09/postfix.rs`):
+//!     real parse tree vs Lean reference vs Lean model on expressions that mix
+//!     `!` / `-`, every kind of atom, method calls / fields / `?` and binary
+//!     operators, nested; values on the JIT against documented values and
+//!     against the fully parenthesised form.
 //!
 //! usage: c09 run <seed> <quick|thorough>
 //!        c09 replay <json>
@@ -26,6 +35,10 @@ use std::net::{IpAddr, Ipv4Addr, Ipv6Addr};
 
 #[path = "../c09/lookahead.rs"]
 mod lookahead;
+#[path = "../c09/postfix.rs"]
+mod postfix;
+#[path = "../c09/firstchar.rs"]
+mod firstchar;
 
 // ------------------------------------------------------------------ operators
 
@@ -1218,8 +1231,14 @@ fn run(seed: u64, thorough: bool) -> Report {
     let mut drv = Driver::spawn().expect("lean driver");
     let mut p = Prng::new(seed);
 
+    // H. first character × literal kind (seed-independent table)
+    firstchar::run(&mut rep);
+
     // F. bracketed constructs × mode-switching tokens (boundary tables first)
     lookahead::run(&mut rep, &mut drv, &mut p, thorough);
+
+    // G. prefix operators × operand kinds × postfix forms (class representatives first)
+    postfix::run_representatives(&mut rep, &mut drv);
 
     // A. operator sequences
     let mut seqs = vec![];
@@ -1242,6 +1261,8 @@ fn run(seed: u64, thorough: bool) -> Report {
     for chunk in compact.chunks(2000) {
         check_opseqs(&mut rep, &mut drv, chunk, true);
     }
+    // G, random part: nests of prefix / postfix / binary operators
+    postfix::run_random(&mut rep, &mut drv, &mut p, thorough);
     let grouping_ok = rep.impl_violations.is_empty();
 
     // B. evaluation of e vs fully parenthesised e; rejected chains
@@ -1373,7 +1394,7 @@ fn replay(case: &Value) -> Report {
             }
         }
         other => {
-            if !lookahead::replay(&mut rep, case) {
+            if !lookahead::replay(&mut rep, case) && !postfix::replay(&mut rep, case) {
                 rep.notes.push(format!("unknown replay kind {other}"));
             }
         }
